@@ -50,6 +50,8 @@ def _gen_optcase(ctx, rng):
     meta = {"mk": kind, "opt": kw["constraint_option"]}
     if kw["constraint_option"] in ("max_n", "exact_n") and rng.random() < 0.35:
         meta["all_sensors_head"] = True
+    if len(kw["idx_constrained"]) >= 1 and rng.random() < 0.35:
+        meta["region_container"] = rng.choice(["dup", "dup", "tuple1", "list"])
     return OptCase(B, "gqr", gqr=kw, meta=meta)
 
 
